@@ -427,13 +427,11 @@ const strPrelude = `
 (declare-fun str_at (Str Int) Int)
 (declare-fun str_sub (Str Int Int) Str)
 (declare-fun str_cat (Str Str) Str)
-(declare-fun str_lt (Str Str) Bool)
+(declare-fun str_rank (Str) Real)
+(define-fun str_lt ((a Str) (b Str)) Bool (< (str_rank a) (str_rank b)))
 (assert (forall ((s Str)) (! (and (>= (str_len s) 0) (<= (str_len s) 4611686018427387904)) :pattern ((str_len s)))))
 (assert (forall ((s Str) (i Int)) (! (and (<= 0 (str_at s i)) (<= (str_at s i) 255)) :pattern ((str_at s i)))))
-(assert (forall ((x Str)) (! (not (str_lt x x)) :pattern ((str_lt x x)))))
-(assert (forall ((x Str) (y Str)) (! (=> (str_lt x y) (not (str_lt y x))) :pattern ((str_lt x y)))))
-(assert (forall ((x Str) (y Str)) (! (or (str_lt x y) (str_lt y x) (= x y)) :pattern ((str_lt x y)))))
-(assert (forall ((x Str) (y Str) (z Str)) (! (=> (and (str_lt x y) (str_lt y z)) (str_lt x z)) :pattern ((str_lt x y) (str_lt y z)))))
+(assert (forall ((x Str) (y Str)) (! (=> (= (str_rank x) (str_rank y)) (= x y)) :pattern ((str_rank x) (str_rank y)))))
 (define-fun wrap64 ((x Int)) Int (ite (> x 9223372036854775807) (- x 18446744073709551616) (ite (< x (- 9223372036854775808)) (+ x 18446744073709551616) x)))
 (define-fun inr64 ((x Int)) Bool (and (<= (- 9223372036854775808) x) (<= x 9223372036854775807)))
 `
